@@ -160,6 +160,71 @@ pub fn threads(sink: &mut Sink, seed: u64, thorough: bool, grp0: u64) {
         let mut ev = set_event(grp, 0, 2, 1000, 0, 1); ev["id"] = json!(sink.id()); sink.emit(&ev);
         for h in handles { for mut e in h.join().unwrap_or_default() { e["id"] = json!(sink.id()); e["grp"] = json!(grp); sink.emit(&e); } }
     }
+    // Teardown: a build and three renderings issued from the destructor of a thread-local of the CALLER while the thread exits - with
+    // the caller's thread-local registered before the thread's first build (so whatever the crate keeps per thread is destroyed first)
+    // and after it.  Same request as a build in the thread's body: same result.
+    for user_first in [true, false] {
+        grp += 1;
+        let shared = Arc::new({ let mut b = QRBuilder::new(INPUTS[1].to_vec()); apply_set(&mut b, 0, 2); b });
+        struct Guard { b: Arc<QRBuilder>, tx: mpsc::Sender<Value> }
+        impl Drop for Guard {
+            fn drop(&mut self) {
+                let out = build_out(&self.b);
+                let _ = self.tx.send(json!({"what": "build", "out": out}));
+                let r = std::panic::catch_unwind(std::panic::AssertUnwindSafe(|| {
+                    let qr = self.b.build().ok()?;
+                    Some((qr.to_str().into_bytes(), svg_builder(&[]).to_str(&qr).into_bytes(), image_builder(&[]).to_pixmap(&qr).data().to_vec()))
+                }));
+                let _ = self.tx.send(match r { Ok(Some((t, sv, px))) => json!({"what": "render", "hashes": [fnv(&t).to_vec(), fnv(&sv).to_vec(), fnv(&px).to_vec()]}), Ok(None) => json!({"what": "render", "hashes": []}), Err(_) => json!({"what": "render-panic"}) });
+            }
+        }
+        thread_local! { static GUARD: std::cell::RefCell<Option<Guard>> = std::cell::RefCell::new(None); }
+        let (tx, rx) = mpsc::channel::<Value>();
+        let sh = shared.clone();
+        let h = std::thread::spawn(move || {
+            let install = |tx: mpsc::Sender<Value>, b: Arc<QRBuilder>| GUARD.with(|g| *g.borrow_mut() = Some(Guard { b, tx }));
+            if user_first { install(tx.clone(), sh.clone()); }
+            let body = build_out(&sh);
+            let bq = sh.build().ok();
+            let hashes = bq.map(|qr| vec![fnv(&qr.to_str().into_bytes()).to_vec(), fnv(&svg_builder(&[]).to_str(&qr).into_bytes()).to_vec(), fnv(&image_builder(&[]).to_pixmap(&qr).data().to_vec()).to_vec()]).unwrap_or_default();
+            let _ = tx.send(json!({"what": "body", "out": body, "hashes": hashes}));
+            if !user_first { install(tx.clone(), sh.clone()); }
+        });
+        let _ = h.join();
+        let msgs: Vec<Value> = rx.try_iter().collect();
+        let id = sink.id();
+        sink.emit(&json!({"ev": "HNew", "id": id, "grp": grp, "tid": 0, "seq": 1, "bid": 1000, "tag": "hnew", "input": INPUTS[1].to_vec()}));
+        let mut ev = set_event(grp, 0, 2, 1000, 0, 2); ev["id"] = json!(sink.id()); sink.emit(&ev);
+        let mut seq = 0u64;
+        let tag = if user_first { "teardown:userfirst" } else { "teardown:cratefirst" };
+        let mut got = (false, false);
+        for m in msgs {
+            match m["what"].as_str().unwrap_or("") {
+                "body" | "build" => {
+                    if m["what"] == "build" { got.0 = true; }
+                    seq += 1; let id = sink.id();
+                    sink.emit(&json!({"ev": "HBuild", "id": id, "grp": grp, "tid": 300, "seq": seq, "bid": 1000, "tag": format!("hbuild:{tag}:{}", m["what"].as_str().unwrap_or("")), "lite": 0, "out": m["out"]}));
+                    for (which, hsh) in m["hashes"].as_array().cloned().unwrap_or_default().into_iter().enumerate() {
+                        seq += 1; let id = sink.id();
+                        sink.emit(&json!({"ev": "HRender", "id": id, "grp": grp, "tid": 300, "seq": seq, "tag": format!("hrender:{tag}"), "qrid": 0, "renderer": which * 10 + 8, "hash": hsh, "qr_unchanged": 1}));
+                    }
+                }
+                "render" => {
+                    got.1 = true;
+                    for (which, hsh) in m["hashes"].as_array().cloned().unwrap_or_default().into_iter().enumerate() {
+                        seq += 1; let id = sink.id();
+                        sink.emit(&json!({"ev": "HRender", "id": id, "grp": grp, "tid": 300, "seq": seq, "tag": format!("hrender:{tag}:drop"), "qrid": 0, "renderer": which * 10 + 8, "hash": hsh, "qr_unchanged": 1}));
+                    }
+                }
+                _ => {}
+            }
+        }
+        // the destructor did not report (it panicked past its own catch_unwind, or never ran): an outcome that is neither a symbol nor a documented error
+        if !(got.0 && got.1) {
+            seq += 1; let id = sink.id();
+            sink.emit(&json!({"ev": "HBuild", "id": id, "grp": grp, "tid": 300, "seq": seq, "bid": 1000, "tag": format!("hbuild:{tag}:missing"), "lite": 0, "out": {"kind": "Panic", "why": "Panic:no result from a build or rendering issued while the thread was exiting"}}));
+        }
+    }
     for pi in 0..programs {
         grp += 1;
         let nthreads = [1usize, 2, 4, 8, 16][pi % 5];
